@@ -223,7 +223,8 @@ func bootFrom(cs *CrashState) func(x *Exec) error {
 			}
 		}
 		// the restart happens after the crash instant
-		time.Sleep(time.Duration(cs.Clock+1) * time.Second)
+		time.Sleep(time.Duration(cs.Clock+1+int64(x.Sc.CrashAgeSec)) * time.Second)
+		x.Mem["restartAt"] = time.Now()
 		for pi := range x.Sc.Plans {
 			if p, err := x.ReadPlan(pi); err == nil {
 				x.Mem[fmt.Sprintf("crashView:%d", pi)] = View(p)
